@@ -11,11 +11,16 @@ APIS_T = ["FindAllStringSubmatchIndex", "FindAllSubmatch", "FindAllStringSubmatc
 def items(tier):
     out = []
     maxL = 3 if tier == "quick" else 4
-    for p, strat, tags in corpus.entries(tier):
+    ents = corpus.entries(tier)
+    for idx, (p, strat, tags) in enumerate(ents):
         a = alpha_for(p)
         for L in range(0, maxL + 1):
             out.append(mk("C04", p, "FindAllIndex", L, a, n=99, strategy=strat))
-        for api in APIS2 + (APIS_T if tier != "quick" else []):
+        # the other enumeration APIs at L=2: all of them for every third pattern (rotating) in quick, for all in thorough
+        apis = APIS2 + (APIS_T if tier != "quick" else [])
+        if tier == "quick" and "e" not in tags:
+            apis = [APIS2[(idx + k) % len(APIS2)] for k in range(2)]
+        for api in apis:
             n = -1 if api.startswith("All") else 99
             out.append(mk("C04", p, api, 2, a, n=n, strategy=strat, extra="1" if api.startswith("Append") else ""))
         if "e" in tags:
@@ -26,9 +31,11 @@ def items(tier):
                 out.append(mk("C04", p, api, 3, a, n=n, strategy=strat, extra="1" if api.startswith("Append") else ""))
         for pre, post in corpus.windows(p):
             out.append(mk("C04", p, "FindAllIndex", maxL, a, n=-1, strategy=strat, pre=pre, post=post))
-            out.append(mk("C04", p, "Count", maxL, a, n=-1, strategy=strat, pre=pre, post=post))
+            if tier != "quick":
+                out.append(mk("C04", p, "Count", maxL, a, n=-1, strategy=strat, pre=pre, post=post))
         out.append(mk("C04", p, "AllIndexBreak", 3, a, n=1, strategy=strat))
-        out.append(mk("C04", p, "AppendAllIndex", 2, a, n=-1, strategy=strat, extra="0"))
+        if tier != "quick" or idx % 4 == 0:
+            out.append(mk("C04", p, "AppendAllIndex", 2, a, n=-1, strategy=strat, extra="0"))
     return out
 
 
